@@ -160,6 +160,7 @@ func (ctx *ValidationContext) FragmentSpreads(node *ast.SelectionSet) []*ast.Fra
 		var set *ast.SelectionSet
 		// pop
 		set, setsToVisit = setsToVisit[len(setsToVisit)-1], setsToVisit[:len(setsToVisit)-1]
+		verifCount(5)
 		if set.Selections != nil {
 			for _, selection := range set.Selections {
 				switch selection := selection.(type) {
@@ -223,6 +224,7 @@ func (ctx *ValidationContext) VariableUsages(node HasSelectionSet) []*VariableUs
 	if usages, ok := ctx.variableUsages[node]; ok && usages != nil {
 		return usages
 	}
+	verifCount(6)
 	usages := []*VariableUsage{}
 	typeInfo := NewTypeInfo(&TypeInfoConfig{
 		Schema: ctx.schema,
